@@ -386,7 +386,15 @@ func (p *recProvider) Subscribe(_ context.Context, sub sse.Subscription) error {
 	case p.ret == "first":
 		return first
 	case strings.HasPrefix(p.ret, "own:"):
-		return errors.New(string(unhx(p.ret[4:])))
+		// the library's own sentinel when the text is its text (bare, or wrapped): what Joe returns after Shutdown
+		text := string(unhx(p.ret[4:]))
+		switch {
+		case text == sse.ErrProviderClosed.Error():
+			return sse.ErrProviderClosed
+		case strings.HasSuffix(text, ": "+sse.ErrProviderClosed.Error()):
+			return fmt.Errorf("%s: %w", strings.TrimSuffix(text, ": "+sse.ErrProviderClosed.Error()), sse.ErrProviderClosed)
+		}
+		return errors.New(text)
 	}
 	panic("bad provider ret " + p.ret)
 }
